@@ -3,7 +3,7 @@ Theorems: coq/Properties/C13.v over Model/Hardlink.v (small-step interleaving ma
 Tie: end-to-end runs of the real binary with -H on generated link-group partitions and worker counts
 (termination decided by a wall-clock bound, inode classes compared with the source), a natural fault
 (the first copy of a group fails), and the model's exhaustive exploration statistics."""
-import os, json, time
+import os, json, time, shutil, subprocess
 import vlib, world, engine_world as ew
 from common import proof_phase, TRUSTED_COMMON
 
@@ -32,6 +32,18 @@ def gen(r, i):
     for j in range(r.randrange(0, 3)):
         spec.append({"p": "plain%d.txt" % j, "k": "f", "data": ("rand", 7000 + j, 50), "mt": 50})
     return spec
+
+
+FAULT_SHIM = os.path.join(vlib.CACHE, "faultshim.so")
+FAULT_SHIM_SRC = os.path.join(vlib.VERIF, "shim", "faultshim.c")
+
+
+def build_fault_shim():
+    os.makedirs(vlib.CACHE, exist_ok=True)
+    if os.path.exists(FAULT_SHIM) and os.path.getmtime(FAULT_SHIM) >= os.path.getmtime(FAULT_SHIM_SRC):
+        return True
+    p = subprocess.run(["gcc", "-O1", "-shared", "-fPIC", "-o", FAULT_SHIM, FAULT_SHIM_SRC, "-ldl"], stdout=subprocess.PIPE, stderr=subprocess.STDOUT)
+    return p.returncode == 0
 
 
 def run(tier, seed):
@@ -121,14 +133,47 @@ def run(tier, seed):
                     viol.append({"world": "fault%d" % i, "why": "members that could be created are missing or wrong after the first copy of their group failed: %r" % missing, "klass": None})
                 if rr["rc"] == 0:
                     viol.append({"world": "fault%d" % i, "why": "exit status 0 although members of the group could not be created", "klass": None})
+        # the first copy fails LATE (fault shim: its open takes 150 ms and ends in EIO) while waiters sit between their read of
+        # the map and their registration (schedule-point hook, 400 ms) and the next owner's copy is slow (700 ms): a waiter that
+        # registered with the notice of the failed copy must not sleep on it
+        ng = 3 if tier == "quick" else 12
+        gap_hangs = 0
+        shim_ok = build_fault_shim()
+        if not shim_ok:
+            viol.append({"world": "gap", "why": "fault shim did not build", "klass": None})
+        for i in range(ng if shim_ok else 0):
+            base = os.path.join(sc.dir, "g%d" % i)
+            src, dst = base + "/src", base + "/dst"
+            k = r.choice([3, 4, 6])
+            names = ["a_first/x.dat"] + ["ok/m%02d.dat" % t for t in range(k)]
+            spec = [{"p": names[0], "k": "f", "data": ("rand", i, 3000), "mt": 10}] + [{"p": p, "k": "h", "to": names[0]} for p in names[1:]]
+            world.mk_tree(src, spec)
+            os.makedirs(dst)
+            env_old = dict(sc.env)
+            sc.env.update({"SY_VERIF_HL_GAP_MS": "400", "LD_PRELOAD": FAULT_SHIM, "SY_FAULT_PATH": "/dst/a_first/x.dat", "SY_FAULT_DELAY_MS": "150",
+                           "SY_SLOW_PATH": "/dst/ok/", "SY_SLOW_DELAY_MS": "700"})
+            rr = world.run_sy([src, dst, "-H", "-j%d" % r.choice([2, 3, 3, 4]), "-q"], sc, timeout=12)
+            sc.env.clear(); sc.env.update(env_old)
+            if rr["timeout"]:
+                gap_hangs += 1
+                viol.append({"world": "gap%d" % i, "members": len(names), "why": "the first copy of the link group failed late while waiters sat between reading the map and registering; "
+                             "sy -H hung (killed after 12 s)", "klass": None})
+            else:
+                d_snap, s_snap = world.snapshot(dst), world.snapshot(src)
+                okm = names[1:]
+                if len(set(d_snap[p]["ino"] for p in okm if p in d_snap)) > 1 or any(p not in d_snap or d_snap[p].get("sha") != s_snap[p]["sha"] for p in okm) or rr["rc"] == 0:
+                    viol.append({"world": "gap%d" % i, "why": "after the late failure of the first copy: members missing, not sharing an inode, or exit status 0 (rc=%s)" % rr["rc"], "klass": None})
+            shutil.rmtree(base, ignore_errors=True)
     # model-level exploration statistics (kernel-evaluated), recorded as support
     stats = vlib.coq_eval_list("From Coq Require Import List. Import ListNotations.\nFrom SyModel Require Import Hardlink.",
-                               "List.map (fun n => length (fst (explore 400000 false true [] [init n]))) [1;2;3]", tag="c13")
+                               "List.map (fun n => length (fst (explore 400000 false true true [] [init n]))) [1;2;3]", tag="c13")
     res.cov["evaluations"] = n * 3 + nf
     res.cov["distinct_nontrivial"] = len(nontriv)
     res.cov["model_reachable_states_n1_to_3_with_faults_and_gap"] = stats
     res.cov["fault_runs"] = nf
     res.cov["fault_runs_hung"] = hangs
+    res.cov["late_failure_gap_runs"] = ng
+    res.cov["late_failure_gap_runs_hung"] = gap_hangs
     res.cov["known_finding_hits"] = {k: len(v) for k, v in hits.items()}
     res.cov["rule"] = ("source trees with 1-3 hard-link groups of 2-5 members (sizes 10 B .. 3 MB, members in different directories) plus plain files, worker counts 1/2/4/8/16; "
                        "each world: create, re-run, update through one member; inode classes and contents of the destination compared with the source; plus a natural fault "
